@@ -511,7 +511,7 @@ def run(ctx):
         ctx.cover("corpus_cases", len(corp))
         check_reports(ctx, st, reps, "corpus")
         check_reports(ctx, st, systematic_reports(), "systematic")
-        n = ctx.scale(5000, 130000)
+        n = ctx.scale(5000, 400000)
         check_reports(ctx, st, [gen_report(ctx.rng, i) for i in range(n)], "random")
         check_gdt(ctx, ctx.scale(3000, 200000), [c["ms"] for c in corp if c.get("kind") == "gdt"])
 
